@@ -127,6 +127,25 @@ def check_property(pid, tier, keep=False):
             cmds.append(res["cmd"].replace(scratch, "<scratch>"))
             verus_s += res["wall_s"]
             failures, und = U.classify(b, res)
+            # Failed hints (untagged asserts) decide nothing and, being assumed once they fail, can hide the clause that really
+            # fails: take them out (neither checked nor assumed) and let the clauses of the contract speak.  At most 3 rounds.
+            dropped_hints = []
+            for _round in range(3):
+                hints = [f for f in failures if f.get("proof_step_only")]
+                if not hints or [u for u in und if not u.startswith("solver limit")]:
+                    break
+                n = U.neutralise_asserts(b, hints)
+                if n == 0:
+                    break
+                dropped_hints += [f["obligation"] for f in hints]
+                res = U.run_verus(b, seed=None)
+                verus_s += res["wall_s"]
+                failures, und = U.classify(b, res)
+            if dropped_hints:
+                notes.append("%s: %d proof hint(s) no longer hold next to the changed code and were taken out (neither checked nor assumed): %s" % (uname, len(dropped_hints), "; ".join(dropped_hints)[:400]))
+            if failures:
+                # a solver limit reported next to failed clauses of the same run is not a separate verdict
+                und = [u for u in und if not u.startswith("solver limit")]
             undecided += ["%s: %s" % (uname, u) for u in und]
             for f in b.functions:
                 if f.get("kind") == "fn" and (pid in f.get("props", []) or not f.get("props")):
@@ -150,10 +169,19 @@ def check_property(pid, tier, keep=False):
             for k, v in U.clause_counts(b).items():
                 clauses[k] = clauses.get(k, 0) + v
             seen_obl = set()
+            mine = [f for f in failures if pid in f["props"]]
+            steps_only = bool(mine) and all(f.get("proof_step_only") for f in mine)
+            if steps_only:
+                und = und + ["proof step no longer goes through: %s" % f["obligation"] for f in mine]
+                undecided += ["%s: proof step no longer goes through (no clause of the contract failed): %s" % (uname, f["obligation"]) for f in mine]
+                failures = [f for f in failures if f not in mine]
             for f in failures:
                 if f["obligation"] in seen_obl:
                     continue
                 seen_obl.add(f["obligation"])
+                if pid in f["props"] and f.get("proof_step_only"):
+                    notes.append("proof step that no longer goes through (next to the failed clause): %s" % f["obligation"])
+                    continue
                 if pid in f["props"]:
                     kf = [k for k in known if k["obligation"] in f["obligation"]]
                     if kf:
